@@ -36,6 +36,15 @@ impl Collector {
         }
         m.insert(order, f);
     }
+    /// count `n` further violating cases of a group without recording them individually
+    pub fn add_count(&self, system: &str, clause: &str, n: u64) {
+        if n == 0 {
+            return;
+        }
+        self.total.fetch_add(n, Ordering::Relaxed);
+        let mut g = self.groups.lock().unwrap();
+        g.entry((system.to_string(), clause.to_string())).or_default().0 += n;
+    }
     pub fn total(&self) -> u64 {
         self.total.load(Ordering::Relaxed)
     }
